@@ -1,6 +1,7 @@
 package interp
 
 import (
+	"go/types"
 	"fmt"
 	"sort"
 
@@ -19,6 +20,11 @@ type accessRec struct {
 	write bool
 	locks map[interface{}]bool
 	where string
+}
+
+type smEntry struct {
+	key IfaceVal
+	val Value
 }
 
 type wgState struct {
@@ -218,6 +224,70 @@ func registerThreads(ex *Explorer) {
 		for st.n > 0 {
 			st.waiters = append(st.waiters, in.gs.cur)
 			in.gBlock()
+		}
+		return nil
+	}
+	// sync.Map: an association list per Map value and path (keys compared as Go compares interface
+	// values: same dynamic type and equal contents)
+	smOf := func(in *Interp, v Value) *[]smEntry {
+		c, _ := v.(*Cell)
+		if c == nil {
+			panic(goPanic{msg: "runtime error: invalid memory address or nil pointer dereference"})
+		}
+		if in.syncMaps == nil {
+			in.syncMaps = map[*Cell]*[]smEntry{}
+		}
+		if in.syncMaps[c] == nil {
+			in.syncMaps[c] = &[]smEntry{}
+		}
+		return in.syncMaps[c]
+	}
+	smFind := func(in *Interp, es *[]smEntry, key Value) int {
+		k, _ := key.(IfaceVal)
+		for i, e := range *es {
+			if e.key.T == nil || k.T == nil {
+				if e.key.T == nil && k.T == nil {
+					return i
+				}
+				continue
+			}
+			if !types.Identical(e.key.T, k.T) {
+				continue
+			}
+			if in.Branch(in.deepEqual(e.key.V, k.V, k.T)) {
+				return i
+			}
+		}
+		return -1
+	}
+	I["(*sync.Map).Load"] = func(in *Interp, fn *ssa.Function, a []Value) Value {
+		es := smOf(in, a[0])
+		if i := smFind(in, es, a[1]); i >= 0 {
+			return TupleVal{(*es)[i].val, in.F.True}
+		}
+		return TupleVal{IfaceVal{}, in.F.False}
+	}
+	I["(*sync.Map).Store"] = func(in *Interp, fn *ssa.Function, a []Value) Value {
+		es := smOf(in, a[0])
+		if i := smFind(in, es, a[1]); i >= 0 {
+			(*es)[i].val = a[2]
+			return nil
+		}
+		*es = append(*es, smEntry{key: a[1].(IfaceVal), val: a[2]})
+		return nil
+	}
+	I["(*sync.Map).LoadOrStore"] = func(in *Interp, fn *ssa.Function, a []Value) Value {
+		es := smOf(in, a[0])
+		if i := smFind(in, es, a[1]); i >= 0 {
+			return TupleVal{(*es)[i].val, in.F.True}
+		}
+		*es = append(*es, smEntry{key: a[1].(IfaceVal), val: a[2]})
+		return TupleVal{a[2], in.F.False}
+	}
+	I["(*sync.Map).Delete"] = func(in *Interp, fn *ssa.Function, a []Value) Value {
+		es := smOf(in, a[0])
+		if i := smFind(in, es, a[1]); i >= 0 {
+			*es = append((*es)[:i:i], (*es)[i+1:]...)
 		}
 		return nil
 	}
